@@ -334,4 +334,145 @@ theorem settings_last_value (pre post : List (String × String)) (k v : String)
 example : lookup (loadSettings (applySets [] [("*b*", "1"), ("*a*", "t"), ("*b*", "2")]) [("*b*", "9")]) "*b*"
     = some "2" := by decide
 
+/-! ## settings: several directories in one process (round 4, seeded mutant C20-10) -/
+
+/-- what a list of setqs leaves for a variable it sets does not depend on the state it started from -/
+theorem lookup_applySets_indep (sets : List (String × String)) (k : String) : ∀ (m m' : Settings),
+    k ∈ sets.map Prod.fst → lookup (applySets m sets) k = lookup (applySets m' sets) k := by
+  induction sets with
+  | nil => intro m m' h; simp at h
+  | cons kv rest ih =>
+    intro m m' h
+    by_cases hr : k ∈ rest.map Prod.fst
+    · simpa [applySets] using ih (setVar m kv.1 kv.2) (setVar m' kv.1 kv.2) hr
+    · have hk : k = kv.1 := by
+        simp only [List.map_cons, List.mem_cons] at h
+        exact h.resolve_right hr
+      have e1 := lookup_applySets_not_mem rest (setVar m kv.1 kv.2) k hr
+      have e2 := lookup_applySets_not_mem rest (setVar m' kv.1 kv.2) k hr
+      simp only [applySets, List.foldl_cons] at e1 e2 ⊢
+      rw [e1, e2, lookup_setVar, lookup_setVar]
+      simp [hk]
+
+theorem lookup_applySets_over (sets : List (String × String)) (m : Settings) (k v : String)
+    (h : lookup (applySets [] sets) k = some v) : lookup (applySets m sets) k = some v := by
+  by_cases hk : k ∈ sets.map Prod.fst
+  · rw [lookup_applySets_indep sets k m [] hk]; exact h
+  · rw [lookup_applySets_not_mem sets [] k hk] at h
+    simp [lookup] at h
+
+/-- a session's setqs -/
+def CfgProc.setqs (p : CfgProc) (sets : List (String × String)) : CfgProc :=
+  sets.foldl (fun q kv => q.apply (.setq kv.1 kv.2)) p
+
+theorem CfgProc.setqs_spec (d : Nat) (sets : List (String × String)) : ∀ (p : CfgProc), p.dir = some d →
+    (p.setqs sets).dir = some d ∧ (p.setqs sets).mods = applySets p.mods sets ∧
+    (∀ d', d' ≠ d → (p.setqs sets).disk d' = p.disk d') ∧
+    (sets ≠ [] ∨ p.disk d = some p.mods → (p.setqs sets).disk d = some (p.setqs sets).mods) := by
+  induction sets with
+  | nil => intro p h; simp [CfgProc.setqs, applySets, h]
+  | cons kv rest ih =>
+    intro p h
+    have h1 : (p.apply (.setq kv.1 kv.2)).dir = some d := by simp [CfgProc.apply, h]
+    have hm : (p.apply (.setq kv.1 kv.2)).mods = setVar p.mods kv.1 kv.2 := by simp [CfgProc.apply, h]
+    have hd : (p.apply (.setq kv.1 kv.2)).disk d = some (p.apply (.setq kv.1 kv.2)).mods := by
+      simp [CfgProc.apply, h, CfgProc.put]
+    have ho : ∀ d', d' ≠ d → (p.apply (.setq kv.1 kv.2)).disk d' = p.disk d' := by
+      intro d' hne; simp [CfgProc.apply, h, CfgProc.put, hne]
+    obtain ⟨i1, i2, i3, i4⟩ := ih _ h1
+    refine ⟨by simpa [CfgProc.setqs] using i1, ?_, ?_, ?_⟩
+    · have : (p.setqs (kv :: rest)).mods = ((p.apply (.setq kv.1 kv.2)).setqs rest).mods := by
+        simp [CfgProc.setqs]
+      rw [this, i2, hm]; simp [applySets]
+    · intro d' hne
+      have : (p.setqs (kv :: rest)).disk d' = ((p.apply (.setq kv.1 kv.2)).setqs rest).disk d' := by
+        simp [CfgProc.setqs]
+      rw [this, i3 d' hne, ho d' hne]
+    · intro _
+      have := i4 (Or.inr hd)
+      simpa [CfgProc.setqs] using this
+
+/-- `SetConfigDir d` (with or without `ZeroMods`) from ANY process state: the session writes to `d`,
+what `d/config.lisp` held is marked with its values, no file other than a missing `d/config.lisp`
+changes -/
+theorem CfgProc.start_spec (p : CfgProc) (d : Nat) (z : Bool) :
+    (p.apply (.start d z)).dir = some d ∧
+    (∀ d', d' ≠ d → (p.apply (.start d z)).disk d' = p.disk d') ∧
+    (∀ file, p.disk d = some file → (p.apply (.start d z)).disk d = some file ∧
+      (p.apply (.start d z)).mods = applySets (if z then [] else p.mods) file) ∧
+    (p.disk d = none → (p.apply (.start d z)).disk d = some [] ∧
+      (p.apply (.start d z)).mods = (if z then [] else p.mods)) := by
+  cases hf : p.disk d with
+  | none => simp [CfgProc.apply, hf, CfgProc.put]; intro d' hne; simp [hne]
+  | some file => simp [CfgProc.apply, hf, loadSettings, applySets]
+
+/-- every event keeps the marked variables free of duplicates (so each is written once) -/
+theorem CfgProc.apply_nodup (p : CfgProc) (e : CfgEvent) (h : (keys p.mods).Nodup) :
+    (keys (p.apply e).mods).Nodup := by
+  cases e with
+  | start d z =>
+    have h0 : (keys (if z then [] else p.mods)).Nodup := by cases z <;> simp [keys, h] <;> exact h
+    cases hf : p.disk d with
+    | none => simpa [CfgProc.apply, hf] using h0
+    | some file => simpa [CfgProc.apply, hf, loadSettings, applySets] using nodup_keys_applySets file _ h0
+  | setq k v =>
+    cases hd : p.dir <;> simpa [CfgProc.apply, hd] using nodup_keys_setVar p.mods k v h
+  | ext d c => simpa [CfgProc.apply] using h
+  | exit => simp [CfgProc.apply, keys]
+
+theorem CfgProc.run_nodup (es : List CfgEvent) : ∀ (p : CfgProc), (keys p.mods).Nodup →
+    (keys (p.run es).mods).Nodup := by
+  induction es with
+  | nil => intro p h; exact h
+  | cons e es ih => intro p h; exact ih _ (CfgProc.apply_nodup p e h)
+
+/-- `settings_per_directory` — the statement seeded mutant C20-10 breaks. Take the process in ANY
+state `history` of earlier events can leave it in (sessions on other directories, with or without
+`ZeroMods`, files removed / recreated / replaced by somebody else, earlier processes). A session
+`SetConfigDir d` followed by at least one setq leaves `d/config.lisp` holding every variable once, and
+the next start on `d` — over whatever defaults that process has — gives
+(1) every variable set in the session the value of its last setq,
+(2) every variable `d/config.lisp` held at the start of the session and the session did not set the
+    value it had there,
+while (3) the files of all other directories are what they were. -/
+theorem settings_per_directory (history : List CfgEvent) (d : Nat) (z : Bool)
+    (sets : List (String × String)) (hne : sets ≠ []) (defaults : Settings) :
+    let p := CfgProc.init.run history
+    let q := (p.apply (.start d z)).setqs sets
+    ∃ file, q.disk d = some file ∧ (keys file).Nodup ∧
+      (∀ k v, lookup (applySets [] sets) k = some v → lookup (loadSettings file defaults) k = some v) ∧
+      (∀ file0 k v, p.disk d = some file0 → (keys file0).Nodup → lookup file0 k = some v →
+        k ∉ sets.map Prod.fst → lookup (loadSettings file defaults) k = some v) ∧
+      (∀ d', d' ≠ d → q.disk d' = p.disk d') := by
+  intro p q
+  have hp : (keys p.mods).Nodup := CfgProc.run_nodup history _ (by simp [CfgProc.init, keys])
+  obtain ⟨s1, s2, s3, s4⟩ := CfgProc.start_spec p d z
+  obtain ⟨q1, q2, q3, q4⟩ := CfgProc.setqs_spec d sets _ s1
+  have hs : (keys (p.apply (.start d z)).mods).Nodup := CfgProc.apply_nodup p _ hp
+  have hq : (keys q.mods).Nodup := by
+    show (keys ((p.apply (.start d z)).setqs sets).mods).Nodup
+    rw [q2]; exact nodup_keys_applySets sets _ hs
+  refine ⟨q.mods, q4 (Or.inl hne), hq, ?_, ?_, ?_⟩
+  · intro k v hk
+    apply lookup_load _ hq defaults k v (lookup_mem _ k v _)
+    show lookup ((p.apply (.start d z)).setqs sets).mods k = some v
+    rw [q2]
+    exact lookup_applySets_over sets _ k v hk
+  · intro file0 k v hf hn0 hk hnot
+    apply lookup_load _ hq defaults k v (lookup_mem _ k v _)
+    show lookup ((p.apply (.start d z)).setqs sets).mods k = some v
+    rw [q2, lookup_applySets_not_mem sets _ k hnot, (s3 file0 hf).2]
+    exact lookup_load file0 hn0 _ k v (lookup_mem _ k v hk)
+  · intro d' hne'
+    show ((p.apply (.start d z)).setqs sets).disk d' = p.disk d'
+    rw [q3 d' hne', s2 d' hne']
+
+/-- two sessions in one process, the same setq in both, each directory has it: the seeded mutant's
+demonstration -/
+example :
+    let q := CfgProc.init.run [.start 0 true, .setq "*repl-match-color*" "\"bold\"", .start 1 true,
+      .setq "*repl-match-color*" "\"bold\""]
+    q.disk 0 = some [("*repl-match-color*", "\"bold\"")] ∧ q.disk 1 = some [("*repl-match-color*", "\"bold\"")] := by
+  decide
+
 end SlipVerif.History
